@@ -124,7 +124,8 @@ def r1_flag_agreement(run, w, ctx):
     raise AnalysisError("getSummarySourceGroup: lookup is not lookup_records(**{key: value})")
   key, val = kw[0].value.keys[0], kw[0].value.values[0]
   test, vt, vf = _cond_value(rd, val)
-  ok = test is not None and H.is_self_attr(test, ctx.flag) and isinstance(vt, ast.Name) and vt.id == p_rec and \
+  ok = test is not None and H.is_self_attr(test, ctx.flag) and \
+      isinstance(vt, ast.Name) and vt.id == p_rec and \
       isinstance(vf, ast.Call) and endswith(dotted(vf.func), "CONTAINS") and \
       [text(a) for a in vf.args] == [p_rec] and not vf.keywords
   run.ob(R1, rd.qualname, "lookup value = %s if self.%s else CONTAINS(%s)"
@@ -605,9 +606,6 @@ def r3_row_creation(run, w, ctx):
                    isinstance(c.func.value.func, ast.Attribute) and
                    c.func.value.func.attr == "setdefault"]
           TOADD = text(store[0].func.value.func.value) if store else None
-          bulk = [(n, c) for (n, c, nm) in w.fn(wr.qualname + "." + ld.name).calls()
-                  if endswith(nm, "user_actions.BulkAddRecord")] \
-              if w.repo.has_func(wr.qualname + "." + ld.name) else []
           for c in [x for x in ast.walk(ld) if isinstance(x, ast.Call) and
                     endswith(dotted(x.func), "user_actions.BulkAddRecord")]:
             g = H.guards_of(ld, _stmt_of(ld, c))
@@ -675,7 +673,10 @@ def r4_auto_remove(run, w, ctx):
   flow = H.Flow(ap)
   cfg = ap.cfg
   rem = [(n, c) for (n, c, nm) in ap.calls() if nm == "self.remove" and len(c.args) == 1]
-  clr = {n.id for (n, c, nm) in ap.calls() if nm == "self.%s.clear" % SET}
+  clr = {n.id for (n, c, nm) in ap.calls() if nm == "self.%s.clear" % SET} | \
+      {n.id for n in ap.cfg.nodes if n.kind == "stmt" and isinstance(n.stmt, ast.Assign) and
+       H.is_self_attr(n.stmt.targets[0], SET) and
+       text(n.stmt.value) in ("set()", "set([])")}
   if not rem:
     raise AnalysisError("apply_auto_removes: self.remove(...) not found")
   (rn, rc) = rem[0]
@@ -697,6 +698,12 @@ def r4_auto_remove(run, w, ctx):
     v = rets[0].value
     inner = v.args[0] if isinstance(v, ast.Call) and dotted(v.func) == "bool" and \
         len(v.args) == 1 else v
+    if isinstance(inner, ast.Compare) and len(inner.ops) == 1 and \
+        isinstance(inner.ops[0], (ast.Gt, ast.NotEq)) and \
+        isinstance(inner.comparators[0], ast.Constant) and inner.comparators[0].value == 0:
+      inner = inner.left
+    if isinstance(inner, ast.Call) and dotted(inner.func) == "len" and len(inner.args) == 1:
+      inner = inner.args[0]
     ok = isinstance(inner, ast.Name) and isinstance(rc.args[0], ast.Name) and \
         inner.id == rc.args[0].id
   run.ob(R4, ap.qualname, "return bool(<removed records>)", "the caller learns whether anything "
@@ -724,17 +731,10 @@ def r5_fixpoint(run, w):
                                                                 ("while", "if") else n.stmt),
            "a recalculation may empty further groups; every path from it to the end of the "
            "bundle passes another auto-removal round", ok, witness=wit, fi=fn.fi, node=n.stmt)
-  # the result of the round decides whether to go on: it is the test of a loop whose body
-  # recalculates
-  ok = False
-  for r in removes:
-    n = cfg.nodes[r]
-    if n.kind == "while":
-      body_ids = {m.id for m in recalc if any(x is m.stmt for s in n.stmt.body
-                                              for x in ast.walk(s))}
-      t = n.stmt.test
-      ok = bool(body_ids) and isinstance(t, ast.Call) and \
-          endswith(fn.name(t), "docmodel.apply_auto_removes")
+  # removal rounds and recalculation alternate: some recalculation lies on a cycle through an
+  # auto-removal round (whatever the loop idiom)
+  ok = any(r.id in cfg.reach_after({m}) and m in cfg.reach_after({r.id})
+           for m in removes for r in recalc)
   run.ob(R5, fn.qualname, "while apply_auto_removes(): _bring_all_up_to_date()",
          "rounds of removal and recalculation alternate until a round removes nothing", ok,
          fi=fn.fi)
